@@ -404,6 +404,23 @@ class ReaderTranslator:
                 tt, tv_ = self.value(s.test, fi, env, depth)
                 env[s.body[0].targets[0].id] = ("ifexp", tv_, va, vb)
                 return tt, None, False
+        if isinstance(s, ast.If) and s.orelse and s.body:
+            # one arm is a pure validation failure (only raises): the other arm is straight-line code of this scope
+            def only_raises(arm):
+                return all(isinstance(x, ast.Raise) and not (x.exc is not None and unparse(x.exc).split("(")[0] == "_Stop") for x in arm)
+            keep = s.body if only_raises(s.orelse) else (s.orelse if only_raises(s.body) else None)
+            if keep is not None:
+                toks_k: list = []
+                r_k = None
+                stop_k = False
+                for b_ in keep:
+                    t_, rv_, stop_k = self.stmt(b_, fi, env, depth)
+                    toks_k.extend(t_)
+                    if rv_ is not None:
+                        r_k = rv_
+                    if stop_k:
+                        break
+                return toks_k, r_k, stop_k
         if isinstance(s, ast.If):
             test = unparse(s.test)
             (a, ra) = self.block(s.body, fi, env, depth)
